@@ -54,9 +54,14 @@ Inductive case :=
 | CLoadEnv (environ : list str) (panicked : bool)
 (* glob.cache.size = size: did config.Load accept it; if so a fresh
    route.NewGlobCache(cfg.GlobCacheSize) and a sequence of Get calls (pattern,
-   glob.Compile succeeds); impl = Err 1 when Load returned an error *)
-| CGlob (size : Z) (accepted : bool) (calls : list (str * bool))
+   glob.Compile succeeds); impl = Err 1 when Load returned an error;
+   [matching_disabled] = glob.matching.disabled was set to true (main builds the cache anyway) *)
+| CGlob (size : Z) (matching_disabled : bool) (accepted : bool) (calls : list (str * bool))
         (impl : outcome (list (outcome bool)))
+(* 2-5 config.Load calls in ONE process; per step the option it sets (if any: raw value),
+   [eq_ref] = the result (rendered right after the Load) equals the result of the same Load
+   in a fresh process, [stable] = the returned object is still the same after all later Loads *)
+| CHistory (steps : list (str * bool * arrangement * option str)) (eq_ref stable : list bool)
 (* parseKVSlice([]rune): [want] = the maps the input was generated from, when it was *)
 | CKV (input : list N) (want : option (list smap)) (impl : kvresult)
 (* lex([]rune): item type (0 text 1 equal 2 semicolon 3 comma 4 error), value, n *)
@@ -155,11 +160,23 @@ Definition check_case (c : case) : N :=
       let m := parse_flags [] no_bad [] environ fabio_prefixes None in
       let same := Bool.eqb panicked (is_panic m) in
       verdict same (negb panicked) None (negb (env_well_formed environ))
-  | CGlob size accepted calls impl =>
+  | CHistory steps eq_ref stable =>
+      (* model: a history is the list of single Loads; per step the option's Value.Set
+         receives what that step alone supplies, whatever was loaded before *)
+      let one := fun st : str * bool * arrangement * option str =>
+                   let '(name, isbool, arr, _) := st in model_final name isbool arr in
+      let ms := load_history one steps in
+      let model_ok := all2 (fun m (st : str * bool * arrangement * option str) =>
+                              out_eqb (opt_eqb beq) m (Ok (snd st))) ms steps in
+      let n := length steps in
+      let impl_ok := forallb (fun b => b) eq_ref && forallb (fun b => b) stable
+                     && Nat.eqb (length eq_ref) n && Nat.eqb (length stable) n in
+      verdict (Bool.eqb model_ok impl_ok) impl_ok None (Nat.leb 2 n)
+  | CGlob size disabled accepted calls impl =>
       (* impl = Err 1 when config.Load returned an error (nothing to run) *)
-      let m := load_then_use size calls in
+      let m := load_then_use_settings size disabled calls in
       let same := out_eqb (list_eqb (out_eqb (fun _ _ : bool => true))) impl m
-                  && Bool.eqb accepted (load_accepts_glob_cache_size size) in
+                  && Bool.eqb accepted (load_accepts_glob_settings size disabled) in
       let panics := match impl with Panic => true | Ok l => has_panic l | Err _ => false end in
       let spec := negb accepted || negb panics in
       verdict same spec None (match calls with [] => false | _ => true end)
